@@ -367,9 +367,11 @@ func c31RunTimed(c *Ctx, t c31Timed) c31TimedResult {
 	var pw *os.File
 	if t.stdin == "pipe" {
 		pr, w, err := os.Pipe()
-		if err == nil {
-			in, pw = pr, w
+		if err != nil { // out of descriptors on a loaded machine: skip, do not run with a nil stdin
+			res.parseErr = true
+			return res
 		}
+		in, pw = pr, w
 	}
 	r, err := interp.New(interp.StdIO(in, io.Discard, io.Discard), interp.Dir(dir),
 		interp.Env(expand.ListEnviron("PATH=/usr/bin:/bin", "HOME="+dir, "TMPDIR="+dir)),
